@@ -51,12 +51,25 @@ package cty
 //
 // Length is not under contract yet (assumed: a well-formed number which, when known, is a
 // non-negative integer that fits int64).
-//@ func (cty.Value).Length
+// (assumed, like numericRangeArithmetic: the refiner it returns starts with NotNull, so the refined value is
+// never a known null)
+//@ func cty.valueRefineLengthResult
 //@   trusted
-//@   ensures (and (wf_deep result) (is_number_ty (vty result)) (not (is_null result)) (=> (not (is_marked val)) (not (is_marked result))))
-//@   ensures (=> (is_known result) (is_index_num result))
-//@   ensures (=> (not (is_marked val)) (= result (len_val val)))
-//@   ensures (=> (and (not (is_marked val)) (or (is_tuple_ty (vty val)) (and (kn val) (or (is_list_ty (vty val)) (is_map_ty (vty val)))))) (and (kn result) (= (bf.acc64 (bf_of result)) 0) (= (bf.int64 (bf_of result)) (len_int val))))
+//@   ensures (and (not (= result nil.Func)) (rf_numeric result))
+//
+//@ func (cty.Value).Length
+//@   tags C01 C02
+//@   no_panic_assumed
+//@   requires (wf_deep val)
+//@   ensures[C01] type: (and (is_number_ty (vty result)) (not (is_null result)))
+//@   ensures[C01] nomark: (=> (not (is_marked val)) (not (is_marked result)))
+//@   ensures[C01] wf: (wf_deep result)
+//@   ensures[assumed] (=> (is_known result) (is_index_num result))
+//@   ensures[assumed] (=> (not (is_marked val)) (= result (len_val val)))
+// a known set: the answer is known whenever the set is wholly known or stores a single member (that a known
+// answer is the number of stored members is not proved: it needs NewValue's collapse clause for the bounds 1..n)
+//@   ensures[C01] set_unknown_only_if: (=> (and (not (is_marked val)) (kn val) (is_set_ty (vty val)) (or (wholly_known val) (= (vset_sz (unbox<set.Set<Any>> (inner_v val))) 1))) (is_known result))
+//@   ensures[C02] exact: (=> (and (not (is_marked val)) (or (is_tuple_ty (vty val)) (and (kn val) (or (is_list_ty (vty val)) (is_map_ty (vty val)))))) (and (kn result) (= (bf.acc64 (bf_of result)) 0) (= (bf.int64 (bf_of result)) (len_int val))))
 //
 //@ func (cty.Value).assertUnmarked
 //@   tags C02
